@@ -69,6 +69,9 @@ fn table_orders(em: &mut Emitter) {
         ("open_newer_full", step(Ev::Order(s.clone(), open(1, 200 * MS, 50)))),
         ("open_equal_t_full", step(Ev::Order(s.clone(), open(1, 100 * MS, 50)))),
         ("open_older_full", step(Ev::Order(s.clone(), open(1, 50 * MS, 50)))),
+        ("open_newer_overfilled", step(Ev::Order(s.clone(), open(1, 200 * MS, 55)))),
+        ("open_equal_t_overfilled", step(Ev::Order(s.clone(), open(1, 100 * MS, 51)))),
+        ("open_zero_quantity", step(Ev::Order(Spec { qty: 0, ..s.clone() }, open(1, 200 * MS, 0)))),
         ("cancelled", step(Ev::Order(s.clone(), OSt::Cancelled(210 * MS)))),
         ("filled", step(Ev::Order(s.clone(), OSt::Filled))),
         ("expired", step(Ev::Order(s.clone(), OSt::Expired))),
@@ -163,6 +166,22 @@ fn variant_event_kinds(tp: &Topo) -> Vec<Ev> {
     v.push(Ev::Trade { i: tp.g1, side: 1, price: 2100, qty: 10, fee: 1, t: 60 * MS, n: 5 });
     v.push(Ev::Trade { i: tp.g1, side: 1, price: 1900, qty: 25, fee: 1, t: 60 * MS, n: 6 });
     v.push(Ev::Snapshot { ex: 0, balances: vec![], orders: vec![] });
+    // zero-quantity fill; over-filled and zero-quantity order reports
+    v.push(Ev::Trade { i: tp.g1, side: 1, price: 2100, qty: 0, fee: 0, t: 60 * MS, n: 7 });
+    v.push(Ev::Order(spec(tp.g1, 5), open(5, 60 * MS, 55)));
+    v.push(Ev::Order(Spec { qty: 0, ..spec(tp.far, 12) }, open(12, 60 * MS, 0)));
+    v.push(Ev::Order(Spec { qty: 0, ..spec(tp.far, 13) }, open(13, 60 * MS, 5)));
+    // time_received != time_exchange on every market item kind
+    for (k, lat) in [0i64, 1, 999_999, 80 * MS, -1, -3 * MS].iter().enumerate() {
+        let inner = match k % 5 {
+            0 => Ev::MktTrade { i: tp.g1, price: 812, t: 60 * MS },
+            1 => Ev::MktL1 { i: tp.g1, bid: 79900, ask: 80100, t: 60 * MS, sides: 0 },
+            2 => Ev::MktBook { i: tp.g1, t: 60 * MS, snapshot: true },
+            3 => Ev::MktCandle { i: tp.g1, t: 60 * MS },
+            _ => Ev::MktLiq { i: tp.g1, t: 60 * MS },
+        };
+        v.push(Ev::Late(Box::new(inner), *lat));
+    }
     v
 }
 
@@ -367,7 +386,7 @@ impl Sh {
             c,
             side: self.rng.below(2) as u8,
             price: self.rng.range(900, 1100),
-            qty: *self.rng.pick(&[10, 25, 50, 100]),
+            qty: *self.rng.pick(&[10, 25, 50, 100, 10, 25, 50, 100, 0]),
             kind: self.rng.below(2) as u8,
             tif: self.rng.below(4) as u8,
             strat,
@@ -445,7 +464,10 @@ impl Sh {
                 0..=2 => 0,
                 3..=5 => s.qty / 5,
                 6..=8 => s.qty / 2,
-                _ => s.qty,
+                9 => s.qty,
+                _ => {
+                    if sh.rng.chance(1, 2) { s.qty } else { s.qty + 5 } // over-filled: negative remaining
+                }
             };
             MetaIn { oid: 1000 + s.c, t: sh.time(), filled }
         };
@@ -509,7 +531,7 @@ impl Sh {
             };
             (closing_side, q)
         } else {
-            (self.rng.below(2) as u8, *self.rng.pick(&[5, 10, 10, 20]))
+            (self.rng.below(2) as u8, *self.rng.pick(&[5, 10, 10, 20, 5, 10, 10, 20, 0]))
         };
         self.net[i] += if side == 0 { qty } else { -qty };
         self.next_n += 1;
@@ -588,6 +610,21 @@ impl Sh {
             106..=107 => Ev::MktCandle { i: self.instr(), t: self.time() },
             108..=109 => Ev::MktLiq { i: self.instr(), t: self.time() },
             _ => Ev::MktTrade { i: 0, price: self.rng.range(3600, 4400), t: self.time() },
+        };
+        let is_market = matches!(ev, Ev::MktTrade { .. } | Ev::MktL1 { .. } | Ev::MktBook { .. } | Ev::MktCandle { .. } | Ev::MktLiq { .. });
+        let ev = if is_market && self.rng.chance(4, 5) {
+            // time_received = time_exchange + latency: none, inside a millisecond, larger than the
+            // gaps between events, or negative (received "before" the exchange time)
+            let lat = match self.rng.below(10) {
+                0..=1 => 0,
+                2..=4 => self.rng.range(1, 999_999),
+                5..=7 => self.rng.range(50, 500) * MS,
+                8 => -self.rng.range(1, 999_999),
+                _ => -self.rng.range(1, 5) * MS,
+            };
+            Ev::Late(Box::new(ev), lat)
+        } else {
+            ev
         };
         let close = matches!(ev, Ev::CmdClose(_));
         let sc = self.script(close);
